@@ -215,6 +215,18 @@ def grd1_replay(P, R, L):
         ok = bool(rd) and bool(ab) and all(in_cycle(w, a.bb) for a in ab) and any(in_cycle(w, r.bb) for r in rd)
         R.check("ORD-6", RECOVER_WAL + "|replay-loop", ok, K.where(w),
                 "records are read in a loop and each is applied to the recovery memtable", "read sites %d apply sites %d" % (len(rd), len(ab)))
+        # a record that was read is applied before the next one replaces it: no skip edge around Batch::try_from / apply
+        skipped = []
+        for r in rd:
+            starts = [e[1] for t in result_tests(w, r.dest["l"]) for e in t.ok_edges()] if r.dest else []
+            for s0 in starts or [r.target]:
+                reach = w.reachable(s0, removed_nodes=[a.bb for a in ab])
+                nxt = [x for x in rd if x.bb in reach]
+                if nxt:
+                    skipped.append("the record read at line %s can be replaced by the read at line %s without having been applied" % (r.line, nxt[0].line))
+        R.check("ORD-6", RECOVER_WAL + "|every-record-applied", bool(rd) and bool(ab) and not skipped, K.where(w),
+                "between two read_record calls of the replay loop the record is applied to the memtable on every path (a record is "
+                "never skipped for its size or content; an undecodable one fails recovery)", "; ".join(skipped) or "read sites %d" % len(rd))
         # every return Ok passes either memtable reuse (memtable_ptr.store) or convert_memtable_to_file
         stores = K.normal_sites(w, "arc_swap::ArcSwapAny::store")
         final_conv = [c for c in conv if not in_cycle(w, c.bb)]
